@@ -116,6 +116,12 @@ def _has_nan(value):
         return any(_has_nan(v) for v in value)
     return isinstance(value, (float, np.floating)) and value != value
 
+def _has_numpy(value):
+    """does value, or any member of a list/tuple value, hold a numpy number? numpy compares it with a python int through float64"""
+    if isinstance(value, (list, tuple)):
+        return any(_has_numpy(v) for v in value)
+    return isinstance(value, np.number)
+
 def sort(iterable):
     """
     implements sorting allowing for comparing of not-same-type objects
@@ -141,7 +147,8 @@ def sort(iterable):
     values = list(iterable)
     if not _has_nan(values):
         try:
-            return sorted(values)
+            # numpy numbers are ordered natively as the python numbers cmp sees: np.float64(2**53) == 2**53+1 is True, cmp is exact
+            return sorted(values, key = as_primitive) if _has_numpy(values) else sorted(values)
         except TypeError:
             pass
     return sorted(values, key = Cmp)
